@@ -85,12 +85,14 @@ func (s *Sim) check(what string) {
 			// (a missing policy counts as stale). One-sided: removal is
 			// accepted exactly when that holds.
 			cut := s.nowTs() - uint32(pruneHorizon/time.Second)
-			stale := true
+			nStale := 0
 			for d := 0; d < 2; d++ {
-				if o.pol[d] != nil && o.pol[d].ts >= cut {
-					stale = false
+				if o.pol[d] == nil || o.pol[d].ts < cut {
+					nStale++
 				}
 			}
+			// strict zombie pruning: either edge stale; default: both
+			stale := nStale == 2 || (s.cfg.StrictZombie && nStale >= 1)
 			if stale {
 				logf(r, "  graph: channel %s pruned as a zombie (both policies older than the horizon)", scidStr(scid))
 				r.Count("graph_chan_removed_zombie")
